@@ -9,13 +9,16 @@ import _peer
 META = {
     "engine": "PeerGrammarClient",
     "level": "model_checking",
-    "text": "PeerGrammarClient.tla is a grammar of HTTP/2 server behaviour: 73 frame variants (HEADERS valid / trailers / without "
+    "text": "PeerGrammarClient.tla is a grammar of HTTP/2 server behaviour: 73 fixed frame variants (HEADERS valid / trailers / without "
             ":status / non-200 / bad content-type / bad grpc-status / undecodable -bin / 1xx with and without END_STREAM / oversized "
             "list; DATA message / END_STREAM without trailers / padded / pad longer than payload / beyond the window / frame too large / "
             "garbage / truncated message / on unknown, even, zero stream ids; RST_STREAM with 11 codes, on stream 0, wrong length; SETTINGS legal, illegal "
             "values, wrong length, ACK with payload, on a stream; PING, unsolicited ACK, wrong length, on a stream; GOAWAY with last id "
             "2^31-1, 0, 1, even, too_many_pings; WINDOW_UPDATE 0 and 2^31-1 on stream and connection; CONTINUATION out of place; "
-            "HEADERS without END_HEADERS followed by PING; unknown type, PRIORITY, PUSH_PROMISE; connection close) addressed to one "
+            "HEADERS without END_HEADERS followed by PING; unknown type, PRIORITY, PUSH_PROMISE; connection close) plus HEADERS / trailers whose grpc-message (all sequences of <= 3 fragments out of "
+            "{a, %20, %2, %, %ZZ, 0xFF, %e4%bd}: truncated escapes at the end and in the middle), grpc-status ('', abc, -1, "
+            "99999999999, ' 5'), grpc-status-details-bin (not base64, base64 of non-proto bytes, a Status with another code) or "
+            "content-type value is chosen by TLC, addressed to one "
             "or two concurrent RPCs with deadlines, with a model of the client's reaction (continue / terminate with the status the "
             "gRPC-over-HTTP/2 mapping fixes / transparent retry / connection failure). TLC checks I_OneStatus and I_Deadline on the "
             "model for all sequences of <= 3 (thorough 4) frames (negative controls: a frame on a finished stream changes the status; "
@@ -45,17 +48,42 @@ CONN_V = ["D_unknown", "D_even", "D_zero", "H_unknown", "H_zero", "R_unknown", "
 def step_of(state_text, label):
     if label.startswith("ExpireT"):
         return {"v": "_expire", "_nrpc": parse_tla_state(state_text, only={"nrpc"})["nrpc"]}
+    nrpc = parse_tla_state(state_text, only={"nrpc"})["nrpc"]
     m = re.match(r'FrameT\("(\w+)",\s*(\d+)\)$', label)
-    if not m:
-        raise Inconclusive("unknown action label " + label)
-    return {"v": m.group(1), "r": int(m.group(2)), "_nrpc": parse_tla_state(state_text, only={"nrpc"})["nrpc"]}
+    if m:
+        return {"v": m.group(1), "r": int(m.group(2)), "_nrpc": nrpc}
+    m = re.match(r'ValT\((.*)\)$', label, re.S)
+    if m:
+        k, val, r = parse_tla_value("<<" + m.group(1) + ">>")
+        return {"v": k, "r": r, "val": val, "_nrpc": nrpc}
+    raise Inconclusive("unknown action label " + label)
+
+
+MSG_FRAG = ["a", "%20", "%2", "%", "%ZZ", "xff", "%e4%bd"]
+VAL_SETS = {
+    "V_tstatus": [[""], ["abc"], ["-1"], ["99999999999"], [" 5"]],
+    "V_tdetails": [["undecodable"], ["garbage"], ["mismatch"]],
+    "V_tct": [["application/grpc+proto"], ["application/grpc;x"], ["application/grpcx"], ["APPLICATION/GRPC"], [""]],
+}
+
+
+def random_val_step(rng, nrpc):
+    k = rng.choice(["V_tmsg", "V_tmsg", "V_hmsg", "V_tstatus", "V_tdetails", "V_tct"])
+    if k in ("V_tmsg", "V_hmsg"):
+        val = [rng.choice(MSG_FRAG) for _ in range(rng.randint(1, 3))]
+    else:
+        val = rng.choice(VAL_SETS[k])
+    return {"v": k, "r": rng.randint(1, nrpc), "val": val}
 
 
 def random_beh(rng):
     nrpc = rng.choice([1, 2, 2])
     steps = []
     for _ in range(rng.randint(1, 8)):
-        if rng.random() < 0.6:
+        x = rng.random()
+        if x < 0.15:
+            steps.append(random_val_step(rng, nrpc))
+        elif x < 0.65:
             steps.append({"v": rng.choice(STREAM_V), "r": rng.randint(1, nrpc)})
         else:
             steps.append({"v": rng.choice(CONN_V), "r": 0})
@@ -90,22 +118,40 @@ def run(ctx):
     ]
     ctx.cov["rule"] = ("behaviours = edge cover of the TLC state graph of PeerGrammarClientMC (BFS prefix + one transition; <= 3 frames "
                        "(thorough 4) out of 73 variants addressed to 1 or 2 RPCs) executed frame by frame by a raw HTTP/2 server against a "
-                       "real grpc.NewClient; non-trivial = at least one frame; distinct by (nrpc, frame sequence); plus seeded random "
+                       "real grpc.NewClient, plus every transition into a value-carrying HEADERS frame as first (thorough: first or second) frame; "
+                       "non-trivial = at least one frame; distinct by (nrpc, frame sequence); plus seeded random "
                        "sequences of 1-8 frames and seeded byte-level mutations of the serialised server streams")
     reset_fields = lambda b: {"nrpc": b["nrpc"], "mut": b.get("mut", 0)}
 
     g = ctx.dump_graph("PeerGrammarClientMC", ctx.pick("PeerGrammarClientGen.cfg", "PeerGrammarClientGenT.cfg"), workers=4)
-    raw = ctx.edge_cover(g, step_of, limit=ctx.pick(4000, 20000))
+    raw = ctx.edge_cover(g, step_of, limit=ctx.pick(3000, 20000))
     behs = []
     seen = set()
     for b in raw:
         nrpc = b[0]["_nrpc"]
-        steps = [{"v": s["v"], "r": s["r"]} for s in b if s["v"] != "_expire"]
+        steps = [{k: v for k, v in s.items() if k != "_nrpc"} for s in b if s["v"] != "_expire"]
         key = json.dumps([nrpc, steps])
         if key in seen:
             continue
         seen.add(key)
         behs.append({"nrpc": nrpc, "mut": 0, "steps": steps})
+    # HEADERS frames whose header value (grpc-message fragments, grpc-status, grpc-status-details-bin, content-type) TLC chose
+    gv = ctx.dump_graph("PeerGrammarClientMC", ctx.pick("PeerGrammarClientVal.cfg", "PeerGrammarClientValT.cfg"), workers=4)
+    nval = 0
+    for b in ctx.edge_cover(gv, step_of, limit=None):
+        if not b[-1]["v"].startswith("V_") or b[0]["_nrpc"] != 2:
+            continue
+        steps = [{k: v for k, v in s.items() if k != "_nrpc"} for s in b if s["v"] != "_expire"]
+        key = json.dumps([2, steps])
+        if key not in seen:
+            seen.add(key)
+            behs.append({"nrpc": 2, "mut": 0, "steps": steps})
+            nval += 1
+    if ctx.quick() is False and nval > 12000:
+        head, tail = behs[:len(behs) - nval], behs[len(behs) - nval:]
+        ctx.rng.shuffle(tail)
+        behs = head + tail[:12000]
+    ctx.log("%d behaviours end in a value-carrying HEADERS frame" % min(nval, 12000))
     tpath = os.path.join(ctx.run, "trace-replay.ndjson")
     _peer.run_batched(ctx, binary, "TestVerifC11Replay", behs, tpath, "replay", batch=700, reset_fields=reset_fields)
     for b in behs:
